@@ -63,3 +63,46 @@ func ReadDirInfo(dir string) ([]fs.FileInfo, error) {
 	}
 	return out, nil
 }
+
+var tempSeq int
+
+// CreateTemp creates a new file in dir whose name is built from pattern (the
+// last "*" is replaced by a counter: deterministic, unlike os.CreateTemp).
+func CreateTemp(dir, pattern string) (*File, error) {
+	tempSeq++
+	name := pattern
+	if i := lastStar(pattern); i >= 0 {
+		name = pattern[:i] + itoa(tempSeq) + pattern[i+1:]
+	} else {
+		name = pattern + itoa(tempSeq)
+	}
+	return simfs.Cur.OpenFile(dir+"/"+name, O_RDWR|O_CREATE|O_EXCL, 0o600)
+}
+
+func Chmod(name string, mode FileMode) error {
+	if !simfs.Cur.Exists(name) {
+		return &fs.PathError{Op: "chmod", Path: name, Err: os.ErrNotExist}
+	}
+	return nil
+}
+
+func lastStar(s string) int {
+	for i := len(s) - 1; i >= 0; i-- {
+		if s[i] == '*' {
+			return i
+		}
+	}
+	return -1
+}
+
+func itoa(n int) string {
+	if n == 0 {
+		return "0"
+	}
+	var b []byte
+	for n > 0 {
+		b = append([]byte{byte('0' + n%10)}, b...)
+		n /= 10
+	}
+	return string(b)
+}
